@@ -2,3 +2,6 @@
 import FpVerif.Properties.C01
 import FpVerif.Properties.C04
 import FpVerif.Properties.C03
+import FpVerif.Properties.C05
+import FpVerif.Properties.C09
+import FpVerif.Properties.C15
